@@ -64,8 +64,9 @@ func TestVerifC45Race(t *testing.T) {
 		s.checkProtocols() // all idle: resume
 		s.stop()           // end the worker loops of this round
 		r.Eval(1)
-		r.Distinct(map[bool]string{true: "workers-ran", false: "workers-idle"}[atomic.LoadInt64(&iterations) > 0])
-		r.Distinct("round")
+		// fixed keys: the counts of a free-running pass must not depend on timing
+		r.Distinct("nested+crossed-latches")
+		r.Distinct("concurrent-compute")
 	}
 	r.Outcome("completed")
 	r.Sample("2 latches (nested and crossed Lock/Unlock), 6 concurrent checkProtocols, compute() from 2 goroutines, real goroutines under -race")
